@@ -20,25 +20,5 @@ fn c08_invert_fp31_exhaustive() {
     }
 }
 
-/// batch_invert (N = 2) returns the element-wise inverses, for all 900 pairs of non-zero Fp31 elements (enumerated)
-#[kani::proof]
-#[kani::unwind(33)]
-fn c08_batch_invert_fp31_n2() {
-    kani::cover!(true);
-    let mut x = 1u32;
-    while x < 31 {
-        let mut y = 1u32;
-        while y < 31 {
-            let orig = [Fp31::truncate_from(x), Fp31::truncate_from(y)];
-            let mut xs = orig;
-            batch_invert(&mut xs);
-            assert!((xs[0].as_u128() * orig[0].as_u128()) % 31 == 1 && xs[0].as_u128() < 31);
-            assert!((xs[1].as_u128() * orig[1].as_u128()) % 31 == 1 && xs[1].as_u128() < 31);
-            y += 1;
-        }
-        x += 1;
-    }
-}
-
 #[cfg(test)]
 include!(concat!(env!("IPA_VERIF_DIR"), "/.build/playback/prime_field.rs"));
